@@ -35,7 +35,11 @@ Inductive hop :=
 | CCall (neg : bool) (secs nanos : N)                (* deadline = now +/- (secs, nanos) *)
 | CResp (id : N) (ok : bool)
 | CWrong (on : bool)                                 (* a generated client gets another method's response variant *)
-| MFrame (p : bytes) | MGarbage (b : bytes) | MEof.
+| MFrame (p : bytes) | MGarbage (b : bytes) | MEof
+(* the connection stays QUIET for `secs` seconds: the clocks move, no timer is armed or fires, so
+   the timer wheel does not advance.  Only the Age ops that LEAD a script count (they are folded
+   into the environment by `hrun`); anywhere else an Age is a no-op, in the model and in the harness. *)
+| Age (secs : N).
 
 Inductive cres := RReply | RServerErr | RDeadline | ROther.
 Inductive hobs :=
@@ -92,6 +96,16 @@ Definition set_over (s : hst) : hst :=
 Definition set_inflight (s : hst) (l : list N) : hst :=
   {| over := over s; inflight := l; next_id := next_id s; stream := stream s |}.
 
+(* a timer that is due at once: already expired at insertion, or armed at a tick the clock has
+   reached (possible when the wheel lags the clock: the entry then fires at the next poll).
+   The wheel's advance after such a firing is not tracked: it only ever shortens the lag, so inside
+   dq_env it changes no outcome. *)
+Definition due (e : env) (a : armed) : bool :=
+  match a with
+  | Expired => true
+  | Armed w => w * 1000000 <=? ts_ns (e_now e) - ts_ns (e_start e)
+  end.
+
 (* ---- server: transport read (decode) ; start_request (span, then timer) ; handler ---- *)
 Definition server_request (c : hcfg) (e : env) (s : hst) (id : N) (w : option duration) (hang : bool)
   : hst * list hobs :=
@@ -106,14 +120,11 @@ Definition server_request (c : hcfg) (e : env) (s : hst) (id : N) (w : option du
         match arm_timer (e_start e) (e_elapsed e) (e_now e) (e_now e) D with
         | Panic _ => (set_over s, [OPanic])
         | Ok a =>
-          match a, hang with
-          | Armed _, false => (s, [OStarted id; OServed id])
-          | Armed _, true => (set_inflight s (id :: inflight s), [OStarted id])
-          (* an already expired timer fires at the next poll of the channel: the request is
-             forgotten before the (instant) response is written, a pending handler is aborted *)
-          | Expired, false => (s, [OStarted id])
-          | Expired, true => (s, [OStarted id; OAborted id])
-          end
+          (* a due timer fires at the next poll of the channel: the request is forgotten before
+             the (instant) response is written, a pending handler is aborted *)
+          if due e a then (if hang then (s, [OStarted id; OAborted id]) else (s, [OStarted id]))
+          else if hang then (set_inflight s (id :: inflight s), [OStarted id])
+          else (s, [OStarted id; OServed id])
         end
     end
   end.
@@ -159,10 +170,8 @@ Definition client_step (c : hcfg) (e : env) (s : hst) (o : hop) : hst * list hob
       | Panic _ => (set_over s1, [OPanic])
       | Ok (a, d) =>
         let sent := OCallSent id (Z.to_N (d_secs d)) (Z.to_N (d_nanos d)) in
-        match a with
-        | Armed _ => (set_inflight s1 (id :: inflight s1), [sent])
-        | Expired => (s1, [sent; OCallDone id RDeadline])
-        end
+        if due e a then (s1, [sent; OCallDone id RDeadline])
+        else (set_inflight s1 (id :: inflight s1), [sent])
       end
     end
   | CResp id ok =>
@@ -213,7 +222,20 @@ Fixpoint hrun_from (c : hcfg) (e : env) (s : hst) (ops : list hop) : list (list 
   | o :: r => let '(s1, l) := hstep c e s o in
               let '(ls, s2) := hrun_from c e s1 r in (l :: ls, s2)
   end.
-Definition hrun (c : hcfg) (e : env) (ops : list hop) : list (list hobs) * hst := hrun_from c e hinit ops.
+(* the quiet age of the connection: the leading Age ops, in seconds *)
+Fixpoint quiet_age (ops : list hop) : Z :=
+  match ops with
+  | Age secs :: r => Z.of_N secs + quiet_age r
+  | _ => 0
+  end.
+Definition shift_secs (t : timespec) (secs : Z) : timespec :=
+  {| t_secs := t_secs t + secs; t_nanos := t_nanos t |}.
+(* both clocks have moved; the timer queue (its creation instant, its wheel) has not *)
+Definition aged_env (e : env) (secs : Z) : env :=
+  {| e_now := shift_secs (e_now e) secs; e_wall := shift_secs (e_wall e) secs;
+     e_start := e_start e; e_elapsed := e_elapsed e |}.
+Definition hrun (c : hcfg) (e : env) (ops : list hop) : list (list hobs) * hst :=
+  hrun_from c (aged_env e (quiet_age ops)) hinit ops.
 
 (* ------------------------------------------------------------------------------------------ *)
 (* The monitor for C16, over ops and observations only.
@@ -304,7 +326,7 @@ Fixpoint mon_stream (c : hcfg) (all : list hop) (ended : bool) (ops : list hop) 
 Definition c16_ok (c : hcfg) (e : env) (ops : list hop) (tr : list (list hobs)) : bool :=
   match mode c with
   | MServer => mon_server c false [] ops tr
-  | MClient => mon_client e ops tr
+  | MClient => mon_client (aged_env e (quiet_age ops)) ops tr
   | MStream => mon_stream c ops false ops tr
   end.
 
